@@ -2361,8 +2361,10 @@ class Statements(Sequence, Immutable):
                 raise KeyError(f"Could not find symbol {symbol}")
         g = self._create_dependency_graph()
         symbs = self[i].rhs_symbols
-        if i == 0 or not g:
-            # Special case for models with only one statement or no dependent statements
+        if i not in g:
+            # The statement has no edge in the dependency graph: it reads no earlier
+            # definition and no later statement reads it (this includes the cases of
+            # a single statement and of no dependent statements at all)
             return symbs
         for j, _ in nx.bfs_predecessors(g, i, sort_neighbors=lambda x: reversed(sorted(x))):
             statement = self[j]
